@@ -1,5 +1,8 @@
 import PEval.Lemmas.SensingCrop
 import PEval.Lemmas.SensingBox
+import PEval.Lemmas.SensingEdgeBox
+import PEval.Lemmas.SensingTotal
+import Mathlib.Tactic.Positivity
 import Mathlib.Tactic.NormNum
 import Mathlib.Tactic.Ring
 import Mathlib.Tactic.FieldSimp
@@ -588,5 +591,224 @@ example : agree [] frameSticky (frameSkel 2 0) (frameSkel 2 0) PA.empty = true :
 example : agree [] frameSticky (frameSkel 1 0) (frameSkel 1 1) PA.empty = false := by decide +kernel
 
 end Table
+
+/-! ## totality: when nothing raises
+
+The frame-level theorems above are stated on `… = .ok fr`.  Here the `.ok` is PROVED: a cloud with at least two
+columns and well-formed areas (`ValidArea`: at least three corners per plane, an even number of corners — every box
+corner list is one) never raises, for every box (degenerate ones included), every scale (zero and negative included),
+every configuration.  `crop_pointcloud`'s two `RuntimeError`s are the only exits (`crop_succeeds_iff`). -/
+section Totality
+
+theorem frame_total (mcfg fcfg : Cfg) (cols : Nat) (objs : List Obj) (cloud : List Pt) (areas : List (List Corner))
+    (hc : 2 ≤ cols) (ha : ∀ a ∈ areas, ValidArea a) :
+    ∃ fr, addFrameResult mcfg fcfg cols objs cloud areas = .ok fr :=
+  addFrameResult_total hc mcfg fcfg objs cloud areas ha
+
+theorem evaluate_frame_total (cfg : Cfg) (cols : Nat) (objs : List Obj) (cloud : List Pt) (nd : List (List Pt))
+    (hc : 2 ≤ cols) : ∃ fr, evaluateFrame cfg cols objs cloud nd = .ok fr :=
+  evaluateFrame_total hc cfg objs cloud nd
+
+theorem crop_succeeds_iff (cols : Nat) (cloud : List Pt) (area : List Corner) (inside : Bool) :
+    ((∃ r, crop cols cloud area inside = .ok r) ↔ (2 ≤ cols ∧ ValidArea area)) ∧
+    (∀ k, crop cols cloud area inside = .error k → k = "RuntimeError") :=
+  ⟨crop_ok_iff cols cloud area inside, crop_error_kind cols cloud area inside⟩
+
+/-- every box corner list is a well-formed area, whatever the box and the scale -/
+theorem box_area_valid (b : Box) (k : ℚ) : ValidArea (boxCorners b k) :=
+  ⟨by simp [boxCorners_length], by simp [boxCorners_length]⟩
+
+/-- the contract matters: a one-column cloud raises as soon as one object is evaluated -/
+example : (evaluateFrame ⟨none, 1, 1, 1⟩ 1 [⟨0, some "a", yawBox 0 0 0 1 0 2 2 2, 0, none⟩] [] []).map (fun _ => ()) =
+    .error "RuntimeError" := by decide +kernel
+
+/-- non-vacuity of `frame_total`: a frame with a triangular prism as non-detection area -/
+example : (2 : Nat) ≤ 3 ∧ ∀ a ∈ [[(⟨0, 0, 1⟩ : Corner), ⟨4, 0, 1⟩, ⟨0, 4, 1⟩, ⟨0, 0, 0⟩, ⟨4, 0, 0⟩, ⟨0, 4, 0⟩]], ValidArea a := by
+  refine ⟨by decide, ?_⟩
+  intro a ha
+  simp only [List.mem_cons, List.not_mem_nil, or_false] at ha
+  subst ha
+  exact ⟨by decide, by decide⟩
+
+/-- a DEFECTIVE variant of `crop_pointcloud` requiring three columns (x, y AND z) breaks `evaluate_frame_total` on a
+two-column cloud -/
+def crop_needs3 (cols : Nat) (cloud : List Pt) (area : List Corner) (inside : Bool) : Except Err (List Pt) :=
+  if cols < 3 then .error "RuntimeError" else crop cols cloud area inside
+
+example : (∃ r, crop 2 [] (boxCorners (yawBox 0 0 0 1 0 2 2 2) 1) true = .ok r) ∧
+    crop_needs3 2 [] (boxCorners (yawBox 0 0 0 1 0 2 2 2) 1) true = .error "RuntimeError" :=
+  ⟨⟨[], by decide +kernel⟩, by decide +kernel⟩
+
+end Totality
+
+/-! ## ON the edge lines: the half-open convention of the scan
+
+`inside_iff_geometric*` and `scale_mono*` exclude points on the four edge LINES of the footprint.  The theorems of
+this section hold for EVERY point.  The scan counts an edge `a → b` when `a.y ≤ p.y < b.y` (up) or `b.y ≤ p.y < a.y`
+(down) and the point is STRICTLY left of the crossing.  Consequence: a point on an edge line belongs to the footprint
+iff the infinitesimal step "+x, then +y" takes it strictly inside.  In box coordinates `ξ ∈ [−L, L]`: the line `ξ = L`
+is inside iff `stepU < 0`, the line `ξ = −L` iff `stepU > 0` (`inLen`); corners need both coordinates. -/
+section EdgeLines
+
+/-- the winding counter on a parallelogram for EVERY point (`det ≠ 0`): `1` / `255` when both coordinates are half-open
+inside, else `0` -/
+theorem wn_parallelogram_closed (cx cy ax ay bx by_ zu zl u v : ℚ) (p : Pt)
+    (hD : ax * by_ - ay * bx ≠ 0)
+    (hx : p.x = cx + u * ax + v * bx) (hy : p.y = cy + u * ay + v * by_) :
+    wn (paraArea cx cy ax ay bx by_ zu zl) p
+      = if inHalf u (stepU ax ay bx by_) ∧ inHalf v (stepV ax ay bx by_) then
+          (if 0 < ax * by_ - ay * bx then 1 else 255) else 0 :=
+  wn_para_closed cx cy ax ay bx by_ zu zl u v p hD hx hy
+
+/-- off the edge lines the closed form is the open one (`wn_parallelogram`): the half-open rule only speaks on the lines -/
+theorem inHalf_off_lines (u s : ℚ) (h1 : u ≠ 1) (h2 : u ≠ -1) : inHalf u s ↔ (-1 < u ∧ u < 1) := by
+  unfold inHalf
+  constructor
+  · rintro (h | ⟨h, _⟩ | ⟨h, _⟩)
+    · exact h
+    · exact absurd h h1
+    · exact absurd h h2
+  · intro h; exact Or.inl h
+
+/-- **inside ⇔ geometrically inside with the half-open edges**, any box with independent axes, any scale `k > 0`,
+EVERY point `p.xy = c + ξ·e1 + η·e2` -/
+theorem inside_iff_geometric_closed (cols : Nat) (b : Box) (k ξ η : ℚ) (p : Pt)
+    (hk : 0 < k) (hl : 0 < b.l) (hw : 0 < b.w) (hh : 0 ≤ b.h) (hdet : b.e1x * b.e2y - b.e1y * b.e2x ≠ 0)
+    (hx : p.x = b.cx + ξ * b.e1x + η * b.e2x) (hy : p.y = b.cy + ξ * b.e1y + η * b.e2y) :
+    keepInside cols (boxCorners b k) p = true ↔
+      inLen ξ (b.l / 2 * k) (stepU b.e1x b.e1y b.e2x b.e2y) ∧ inLen η (b.w / 2 * k) (stepV b.e1x b.e1y b.e2x b.e2y) ∧
+        (cols < 3 ∨ (b.cz - b.h / 2 ≤ p.z ∧ p.z ≤ b.cz + b.h / 2)) :=
+  keepInside_box_closed cols b k ξ η p hk hl hw hh hdet hx hy
+
+/-- which edges are inside, axis-aligned box (yaw 0): the x-min and y-min edges (and the corner between them) belong to
+the box, the x-max and y-max edges do not — `[cx − L, cx + L) × [cy − W, cy + W)`, z-range closed -/
+theorem inside_axis_aligned (cols : Nat) (cx cy cz w l h k : ℚ) (p : Pt) (hcols : 3 ≤ cols)
+    (hk : 0 < k) (hl : 0 < l) (hw : 0 < w) (hh : 0 ≤ h) :
+    keepInside cols (boxCorners (yawBox cx cy cz 1 0 w l h) k) p = true ↔
+      (cx - l / 2 * k ≤ p.x ∧ p.x < cx + l / 2 * k) ∧ (cy - w / 2 * k ≤ p.y ∧ p.y < cy + w / 2 * k) ∧
+        cz - h / 2 ≤ p.z ∧ p.z ≤ cz + h / 2 := by
+  have key := keepInside_box_closed cols (yawBox cx cy cz 1 0 w l h) k (p.x - cx) (p.y - cy) p hk hl hw hh
+    (by simp [yawBox]) (by simp only [yawBox]; ring) (by simp only [yawBox]; ring)
+  rw [key]
+  have sU : stepU (1 : ℚ) 0 (-0) 1 = 1 := by norm_num [stepU]
+  have sV : stepV (1 : ℚ) 0 (-0) 1 = 1 := by norm_num [stepV]
+  simp only [yawBox, sU, sV]
+  have hc : ¬ cols < 3 := by omega
+  have hL : 0 < l / 2 * k := by positivity
+  have hW : 0 < w / 2 * k := by positivity
+  unfold inLen
+  constructor
+  · rintro ⟨hu, hv, hz⟩
+    refine ⟨?_, ?_, ?_⟩
+    · rcases hu with ⟨h1, h2⟩ | ⟨_, h2⟩ | ⟨h1, _⟩
+      · exact ⟨by linarith, by linarith⟩
+      · exact absurd h2 (by norm_num)
+      · exact ⟨by linarith, by linarith⟩
+    · rcases hv with ⟨h1, h2⟩ | ⟨_, h2⟩ | ⟨h1, _⟩
+      · exact ⟨by linarith, by linarith⟩
+      · exact absurd h2 (by norm_num)
+      · exact ⟨by linarith, by linarith⟩
+    · rcases hz with hz | hz
+      · exact absurd hz hc
+      · exact hz
+  · rintro ⟨⟨h1, h2⟩, ⟨h3, h4⟩, hz⟩
+    refine ⟨?_, ?_, Or.inr hz⟩
+    · rcases lt_or_eq_of_le h1 with h | h
+      · exact Or.inl ⟨by linarith, by linarith⟩
+      · exact Or.inr (Or.inr ⟨by linarith, by norm_num⟩)
+    · rcases lt_or_eq_of_le h3 with h | h
+      · exact Or.inl ⟨by linarith, by linarith⟩
+      · exact Or.inr (Or.inr ⟨by linarith, by norm_num⟩)
+
+/-- **enlarging the scale never removes an inside point** — EVERY point, the edge lines of either footprint included -/
+theorem scale_mono_all_points (cols : Nat) (b : Box) (k k' ξ η : ℚ) (p : Pt)
+    (hk : 0 < k) (hkk : k ≤ k') (hl : 0 < b.l) (hw : 0 < b.w) (hh : 0 ≤ b.h)
+    (hdet : b.e1x * b.e2y - b.e1y * b.e2x ≠ 0)
+    (hx : p.x = b.cx + ξ * b.e1x + η * b.e2x) (hy : p.y = b.cy + ξ * b.e1y + η * b.e2y)
+    (hin : keepInside cols (boxCorners b k) p = true) :
+    keepInside cols (boxCorners b k') p = true := by
+  have h1 := (keepInside_box_closed cols b k ξ η p hk hl hw hh hdet hx hy).mp hin
+  have hk' : 0 < k' := lt_of_lt_of_le hk hkk
+  have hL : b.l / 2 * k ≤ b.l / 2 * k' := mul_le_mul_of_nonneg_left hkk (by positivity)
+  have hW : b.w / 2 * k ≤ b.w / 2 * k' := mul_le_mul_of_nonneg_left hkk (by positivity)
+  exact (keepInside_box_closed cols b k' ξ η p hk' hl hw hh hdet hx hy).mpr
+    ⟨inLen_mono (by positivity) hL h1.1, inLen_mono (by positivity) hW h1.2.1, h1.2.2⟩
+
+/-- every point has box-frame coordinates when the axes are independent -/
+theorem box_coords_exist (b : Box) (p : Pt) (hdet : b.e1x * b.e2y - b.e1y * b.e2x ≠ 0) :
+    ∃ ξ η, p.x = b.cx + ξ * b.e1x + η * b.e2x ∧ p.y = b.cy + ξ * b.e1y + η * b.e2y := by
+  refine ⟨((p.x - b.cx) * b.e2y - (p.y - b.cy) * b.e2x) / (b.e1x * b.e2y - b.e1y * b.e2x),
+    (b.e1x * (p.y - b.cy) - b.e1y * (p.x - b.cx)) / (b.e1x * b.e2y - b.e1y * b.e2x), ?_, ?_⟩
+  · have h : ((p.x - b.cx) * b.e2y - (p.y - b.cy) * b.e2x) / (b.e1x * b.e2y - b.e1y * b.e2x) * b.e1x +
+        (b.e1x * (p.y - b.cy) - b.e1y * (p.x - b.cx)) / (b.e1x * b.e2y - b.e1y * b.e2x) * b.e2x =
+        (p.x - b.cx) * ((b.e1x * b.e2y - b.e1y * b.e2x) / (b.e1x * b.e2y - b.e1y * b.e2x)) := by ring
+    rw [add_assoc, h, div_self hdet]; ring
+  · have h : ((p.x - b.cx) * b.e2y - (p.y - b.cy) * b.e2x) / (b.e1x * b.e2y - b.e1y * b.e2x) * b.e1y +
+        (b.e1x * (p.y - b.cy) - b.e1y * (p.x - b.cx)) / (b.e1x * b.e2y - b.e1y * b.e2x) * b.e2y =
+        (p.y - b.cy) * ((b.e1x * b.e2y - b.e1y * b.e2x) / (b.e1x * b.e2y - b.e1y * b.e2x)) := by ring
+    rw [add_assoc, h, div_self hdet]; ring
+
+/-- list form for ALL clouds: every row of the inside crop at scale `k > 0` is a row of the inside crop at `k' ≥ k` -/
+theorem scale_mono_crop_all (cols : Nat) (b : Box) (k k' : ℚ) (cloud : List Pt)
+    (hk : 0 < k) (hkk : k ≤ k') (hl : 0 < b.l) (hw : 0 < b.w) (hh : 0 ≤ b.h)
+    (hdet : b.e1x * b.e2y - b.e1y * b.e2x ≠ 0) :
+    ∀ p ∈ cropInside cols cloud (boxCorners b k), p ∈ cropInside cols cloud (boxCorners b k') := by
+  intro p hp
+  unfold cropInside at hp ⊢
+  rw [List.mem_filter] at hp ⊢
+  obtain ⟨ξ, η, hx, hy⟩ := box_coords_exist b p hdet
+  exact ⟨hp.1, scale_mono_all_points cols b k k' ξ η p hk hkk hl hw hh hdet hx hy hp.2⟩
+
+/-- the scale stays positive: growing boxes (`scale_100m ≥ scale_0m > 0`) at every distance, shrinking ones exactly up
+to the zero crossing of the linear rule -/
+theorem scaleFactor_pos (cfg : Cfg) (d : ℚ) :
+    (0 < cfg.scale0 → cfg.scale0 ≤ cfg.scale100 → 0 ≤ d → 0 < scaleFactor cfg d) ∧
+    (cfg.scale100 < cfg.scale0 → (0 < scaleFactor cfg d ↔ d < 100 * cfg.scale0 / (cfg.scale0 - cfg.scale100))) := by
+  unfold scaleFactor
+  constructor
+  · intro h0 h1 hd
+    have : 0 ≤ (1 / 100) * (cfg.scale100 - cfg.scale0) * d := by
+      apply mul_nonneg _ hd
+      apply mul_nonneg (by norm_num); linarith
+    linarith
+  · intro hs
+    have hpos : 0 < cfg.scale0 - cfg.scale100 := by linarith
+    rw [lt_div_iff₀ hpos]
+    constructor <;> intro h <;> nlinarith
+
+/-- the half-open rule on concrete points of the axis-aligned 2 × 2 box at the origin: x-min edge and the
+(x-min, y-min) corner inside, x-max edge, y-max edge and the other three corners outside -/
+example :
+    ([(⟨-1, 0, 0, 0⟩ : Pt), ⟨-1, -1, 0, 1⟩, ⟨0, -1, 0, 2⟩, ⟨1, 0, 0, 3⟩, ⟨0, 1, 0, 4⟩, ⟨1, 1, 0, 5⟩, ⟨-1, 1, 0, 6⟩,
+      ⟨1, -1, 0, 7⟩, ⟨-1, 3, 0, 8⟩].map (keepInside 3 (boxCorners (yawBox 0 0 0 1 0 2 2 2) 1))) =
+      [true, true, true, false, false, false, false, false, false] := by decide +kernel
+
+/-- a rotated box (quarter turn): the edges that are inside turn with the box's axes: now `ξ = +L` (y-min in the world)
+is inside -/
+example : keepInside 3 (boxCorners (yawBox 0 0 0 0 1 2 2 2) 1) ⟨0, -1, 0, 0⟩ = true ∧
+    keepInside 3 (boxCorners (yawBox 0 0 0 0 1 2 2 2) 1) ⟨0, 1, 0, 0⟩ = false ∧
+    stepU (0 : ℚ) 1 (-1) 0 = 1 ∧ stepV (0 : ℚ) 1 (-1) 0 = -1 := by
+  refine ⟨by decide +kernel, by decide +kernel, by norm_num [stepU], by norm_num [stepV]⟩
+
+/-- A DEFECTIVE variant of the edge test with a NON-strict side test (`p.x ≤ x_cross`) counts the x-max edge in:
+`inside_axis_aligned` fails for it -/
+def edgeStep_le (area : List Corner) (n : Nat) (p : Pt) (cnt : Nat) (i : Nat) : Nat :=
+  let a := cornerAt area i
+  let b := cornerAt area ((i + 1) % n)
+  let q := cornerAt area (i + 1)
+  let vt : Rat := if q.y ≠ a.y then (p.y - a.y) / (b.y - a.y) else p.x
+  let valid : Bool := decide (p.x ≤ a.x + vt * (b.x - a.x))
+  let inc : Bool := decide (a.y ≤ p.y) && decide (b.y > p.y) && valid
+  let dec : Bool := decide (a.y > p.y) && decide (b.y ≤ p.y) && valid
+  let cnt := if inc then u8inc cnt else cnt
+  if dec then u8dec cnt else cnt
+
+def wn_le (area : List Corner) (p : Pt) : Nat :=
+  (List.range (area.length / 2)).foldl (edgeStep_le area (area.length / 2) p) 0
+
+example : wn_le (boxCorners (yawBox 0 0 0 1 0 2 2 2) 1) ⟨1, 0, 0, 0⟩ = 1 ∧
+    wn (boxCorners (yawBox 0 0 0 1 0 2 2 2) 1) ⟨1, 0, 0, 0⟩ = 0 := by decide +kernel
+
+end EdgeLines
 
 end PEval.C12
